@@ -350,12 +350,6 @@ void fiber_manager_do_maintenance() {
     memset(&manager->mpsc_to_push, 0, sizeof(manager->mpsc_to_push));
   }
 
-  if (manager->mutex_to_unlock) {
-    fiber_mutex_t* const to_unlock = manager->mutex_to_unlock;
-    manager->mutex_to_unlock = NULL;
-    fiber_mutex_unlock_internal(to_unlock);
-  }
-
   if (manager->spinlock_to_unlock) {
     fiber_spinlock_t* const to_unlock = manager->spinlock_to_unlock;
     manager->spinlock_to_unlock = NULL;
@@ -366,6 +360,15 @@ void fiber_manager_do_maintenance() {
     *manager->set_wait_location = manager->set_wait_value;
     manager->set_wait_location = NULL;
     manager->set_wait_value = NULL;
+  }
+
+  // this must be the last action: unlocking a contended mutex may yield, after
+  // which this fiber can be running on a different kernel thread and 'manager'
+  // belongs to somebody else
+  if (manager->mutex_to_unlock) {
+    fiber_mutex_t* const to_unlock = manager->mutex_to_unlock;
+    manager->mutex_to_unlock = NULL;
+    fiber_mutex_unlock_internal(to_unlock);
   }
 }
 
@@ -444,8 +447,16 @@ int fiber_manager_wake_from_mpsc_queue(fiber_manager_t* manager,
       wake_count += 1;
     } else if (count > 0) {
       manager->wake_mpsc_spin_count += 1;
-      fiber_manager_yield(manager);
-      manager = fiber_manager_get();
+      if (manager->current_fiber == manager->maintenance_fiber) {
+        // reached from fiber_manager_do_maintenance() (deferred mutex unlock).
+        // the maintenance fiber must never yield: it would be queued like an
+        // ordinary fiber, could be stolen and run by another kernel thread,
+        // and is also switched to directly whenever its own thread is idle
+        cpu_relax();
+      } else {
+        fiber_manager_yield(manager);
+        manager = fiber_manager_get();
+      }
     }
   } while (wake_count < count);
   return wake_count;
